@@ -15,6 +15,7 @@ import itertools
 
 from mc import env  # noqa: F401
 from mc.refmodel import rfc_text as R
+from mc.refmodel import rfc_props as RP
 from mc.snapshot import structure
 
 from icalendar.parser import Parameters, Contentline
@@ -31,6 +32,7 @@ P20 = ("p", "", "a:b", "a;b", "a,b", "\\", "a\\", "\\,", "%3A", '"', 'a"b', "a b
        "X=1:y", ";X=1", "BEGIN:VEVENT", "\u00a0", "p\u2003", "\ufeffp",
        # RFC 6868 look-alikes (written raw, must come back raw), a non-BMP character, a value ending with a backslash that needs quoting
        "a ^^ b", "x^n: y", "it^'s a", "^", "\U0001F600", "\U0001F600 x", "c:\\dir\\", "a%2cb%3a%3b%5c", "50%25off%20%41", "x%0Ay")
+STRING_NAMES = tuple(sorted(n for n, (t, _a, _l, _x) in RP.PROPS.items() if t in ("TEXT", "URI", "CAL-ADDRESS") and n not in ("CATEGORIES", "UID")))  # UID: the sentinel
 TYPED = (("vInt", 5), ("vInt", -2147483648), ("vDDD", "dt"), ("vDDD", "date"), ("vDDD", "td"), ("vRecur", None),
          ("vGeo", None), ("vCategory", ("a,b", "c;d", "e\\")), ("vBoolean", True), ("vFloat", 1.5))
 
@@ -257,7 +259,7 @@ def run(ctx):
     ctx.rule = (f"E-enum, pairwise cut: (A) every parameter value over the 12-symbol alphabet, |s|<={k}, x 20 values x names "
                 f"(rotating) x parameter shapes (1, 2 with s first, 2 with s second); (B) 20 parameter values x every value "
                 f"string, |s|<={k}, as vText/vUri/vCalAddress/vInline; (C) all pairs with |s|,|t|<=2 x 4 wrappers; (D) typed "
-                "menu x 20 parameter values.  Each case: level 1 (from_parts/parts) and level 2 (VEVENT and strict VTODO "
+                "menu x 20 parameter values; (E) every TEXT/URI/CAL-ADDRESS property name of RFC 5545 x 11 values with delimiters x 4 parameter maps.  Each case: level 1 (from_parts/parts) and level 2 (VEVENT and strict VTODO "
                 "round trip next to sentinels).  non-trivial = a delimiter/escape character occurs.")
     ctx.bounds = {"alphabet": [repr(c) for c in SIGMA], "k": k, "names": list(NAMES)}
     ctx.assumptions += ["a serialisation refusal is accepted only for content the format cannot carry (LF/CR/control "
@@ -290,4 +292,12 @@ def run(ctx):
             for w in WRAPS:
                 yield ("c", "X-A", 0, "", w, s)
 
+    def gen_names():
+        # (E) every property name whose value is free text / a URI / an address: no name may have its own idea of delimiters
+        for name in STRING_NAMES:
+            for v in ("v", "", "a,b", "a;b", "a:b", "x\\;y", "a, b,c", "BEGIN:VEVENT", "X=1", ",", "a\\"):
+                for pshape, ps in ((0, ""), (1, "p"), (1, "a,b;c"), (2, "a:b")):
+                    yield ("c", name, pshape, ps, "vText", v)
+
     ctx.explore("join/split + tree", gen, run_case)
+    ctx.explore("every string-valued property name", gen_names, run_case)
